@@ -2,5 +2,679 @@
 import SpsdkVerif.Model.Registers
 
 namespace SpsdkVerif.Regs
+open SpsdkVerif SpsdkVerif.Misc
+
+/-! ### generic `Nat` bit lemmas -/
+
+theorem testBit_eq_false_of_lt {x n k : Nat} (h : x < 2 ^ n) (hk : n ≤ k) : x.testBit k = false :=
+  Nat.testBit_lt_two_pow (Nat.lt_of_lt_of_le h (Nat.pow_le_pow_right (by decide) hk))
+
+theorem add_eq_or_of_and_eq_zero : ∀ (a b : Nat), a &&& b = 0 → a + b = a ||| b := by
+  intro a
+  induction a using Nat.strongRecOn with
+  | ind a ih =>
+    intro b h
+    by_cases ha : a = 0
+    · subst ha; simp
+    · have h2 : a / 2 &&& b / 2 = 0 := by rw [← Nat.and_div_two, h]
+      have h3 := ih (a / 2) (by omega) (b / 2) h2
+      have hm : ¬ (a % 2 = 1 ∧ b % 2 = 1) := by
+        rw [← Nat.and_mod_two_eq_one, h]; simp
+      have e1 : (a ||| b) / 2 = a / 2 ||| b / 2 := Nat.or_div_two
+      have e2 := @Nat.or_mod_two_eq_one a b
+      omega
+
+/-- truncated subtraction of a bitwise subset clears exactly those bits -/
+theorem sub_and_eq_xor (a m : Nat) : a - (a &&& m) = a ^^^ (a &&& m) := by
+  have hd : (a &&& m) &&& (a ^^^ (a &&& m)) = 0 := by
+    apply Nat.eq_of_testBit_eq; intro k
+    simp only [Nat.testBit_and, Nat.testBit_xor, Nat.zero_testBit]
+    cases a.testBit k <;> cases m.testBit k <;> rfl
+  have ho : (a &&& m) ||| (a ^^^ (a &&& m)) = a := by
+    apply Nat.eq_of_testBit_eq; intro k
+    simp only [Nat.testBit_and, Nat.testBit_xor, Nat.testBit_or]
+    cases a.testBit k <;> cases m.testBit k <;> rfl
+  have := add_eq_or_of_and_eq_zero _ _ hd
+  rw [ho] at this
+  omega
+
+theorem testBit_sub_and (a m k : Nat) : (a - (a &&& m)).testBit k = (a.testBit k && !m.testBit k) := by
+  rw [sub_and_eq_xor]
+  simp only [Nat.testBit_and, Nat.testBit_xor]
+  cases a.testBit k <;> cases m.testBit k <;> rfl
+
+theorem testBit_mask (w k : Nat) : (mask w).testBit k = decide (k < w) := by
+  simp [mask, Nat.testBit_two_pow_sub_one]
+
+theorem testBit_mask_shl (w off k : Nat) :
+    (mask w <<< off).testBit k = (decide (off ≤ k) && decide (k - off < w)) := by
+  simp [Nat.testBit_shiftLeft, testBit_mask]
+
+theorem two_pow_eq_256_pow (w : Nat) (h8 : w % 8 = 0) : 2 ^ w = 256 ^ (w / 8) := by
+  have : w = 8 * (w / 8) := by omega
+  conv => lhs; rw [this, Nat.pow_mul]
+
+/-! ### `insertBits` -/
+
+theorem testBit_insertBits (rv off w v k : Nat) :
+    (insertBits rv off w v).testBit k =
+      if off ≤ k ∧ k < off + w then v.testBit (k - off) else rv.testBit k := by
+  unfold insertBits
+  simp only [Nat.testBit_or, testBit_sub_and, Nat.testBit_and, Nat.testBit_shiftLeft, testBit_mask]
+  by_cases h1 : off ≤ k
+  · by_cases h2 : k - off < w
+    · have : off ≤ k ∧ k < off + w := ⟨h1, by omega⟩
+      rw [if_pos this]; simp [h1, h2]
+    · have : ¬ (off ≤ k ∧ k < off + w) := by omega
+      rw [if_neg this]; simp [h1, h2]
+  · have : ¬ (off ≤ k ∧ k < off + w) := by omega
+    rw [if_neg this]; simp [h1]
+
+theorem insertBits_lt (rv off w v W : Nat) (hrv : rv < 2 ^ W) (hin : off + w ≤ W) :
+    insertBits rv off w v < 2 ^ W := by
+  apply Nat.lt_pow_two_of_testBit
+  intro k hk
+  rw [testBit_insertBits]
+  have : ¬ (off ≤ k ∧ k < off + w) := by omega
+  simp only [this, if_false]
+  exact testBit_eq_false_of_lt hrv hk
+
+/-! ### big/little-endian encode / decode (own copies; Proofs/Misc.lean is not imported) -/
+
+theorem beEnc_length (n v : Nat) : (beEnc n v).length = n := by
+  induction n generalizing v with
+  | zero => rfl
+  | succ n ih => simp [beEnc, ih]
+
+theorem beDec_append_singleton (l : Bytes) (x : UInt8) : beDec (l ++ [x]) = beDec l * 256 + x.toNat := by
+  simp [beDec, List.foldl_append]
+
+theorem beDec_beEnc_mod (n v : Nat) : beDec (beEnc n v) = v % 256 ^ n := by
+  induction n generalizing v with
+  | zero => simp [beEnc, beDec, Nat.mod_one]
+  | succ n ih =>
+    rw [beEnc, beDec_append_singleton, ih, Nat.pow_succ, Nat.mul_comm (256 ^ n) 256, Nat.mod_mul]
+    have : (UInt8.ofNat (v % 256)).toNat = v % 256 := by
+      rw [UInt8.toNat_ofNat']; omega
+    rw [this]; omega
+
+theorem beDec_beEnc (n v : Nat) (h : v < 256 ^ n) : beDec (beEnc n v) = v := by
+  rw [beDec_beEnc_mod, Nat.mod_eq_of_lt h]
+
+theorem beDec_reverse_lt (l : Bytes) : beDec l.reverse < 256 ^ l.length := by
+  induction l with
+  | nil => simp [beDec]
+  | cons x l ih =>
+    rw [List.reverse_cons, beDec_append_singleton, List.length_cons, Nat.pow_succ]
+    have := x.toNat_lt
+    omega
+
+theorem beDec_lt (l : Bytes) : beDec l < 256 ^ l.length := by
+  have := beDec_reverse_lt l.reverse
+  simpa using this
+
+theorem beEnc_beDec_reverse (l : Bytes) : beEnc l.length (beDec l.reverse) = l.reverse := by
+  induction l with
+  | nil => simp [beEnc]
+  | cons x l ih =>
+    rw [List.reverse_cons, beDec_append_singleton, List.length_cons, beEnc]
+    have := x.toNat_lt
+    have e1 : (beDec l.reverse * 256 + x.toNat) / 256 = beDec l.reverse := by omega
+    have e2 : (beDec l.reverse * 256 + x.toNat) % 256 = x.toNat := by omega
+    rw [e1, e2, ih, UInt8.ofNat_toNat]
+
+theorem beEnc_beDec (l : Bytes) : beEnc l.length (beDec l) = l := by
+  have := beEnc_beDec_reverse l.reverse
+  simpa using this
+
+theorem leDec_leEnc (n v : Nat) (h : v < 256 ^ n) : leDec (leEnc n v) = v := by
+  simp [leDec, leEnc, beDec_beEnc n v h]
+
+theorem leEnc_length (n v : Nat) : (leEnc n v).length = n := by
+  simp [leEnc, beEnc_length]
+
+/-! ### `brev` -/
+
+theorem brev_eq (w v : Nat) (h8 : w % 8 = 0) (hv : v < 2 ^ w) :
+    brev w v = some (leDec (beEnc (w / 8) v)) := by
+  rw [two_pow_eq_256_pow w h8] at hv
+  simp [brev, hv]
+
+theorem leDec_beEnc_lt (n v : Nat) : leDec (beEnc n v) < 256 ^ n := by
+  have := beDec_lt (beEnc n v).reverse
+  simpa [leDec, beEnc_length] using this
+
+theorem leDec_beEnc_invol (n v : Nat) (hv : v < 256 ^ n) :
+    leDec (beEnc n (leDec (beEnc n v))) = v := by
+  have h := beEnc_beDec_reverse (beEnc n v)
+  rw [beEnc_length] at h
+  simp only [leDec]
+  rw [h, List.reverse_reverse, beDec_beEnc n v hv]
+
+theorem brev_invol' (w v : Nat) (h8 : w % 8 = 0) (hv : v < 2 ^ w) :
+    ∃ x, brev w v = some x ∧ x < 2 ^ w ∧ brev w x = some v := by
+  have hx : leDec (beEnc (w / 8) v) < 2 ^ w := by
+    rw [two_pow_eq_256_pow w h8]; exact leDec_beEnc_lt _ _
+  refine ⟨_, brev_eq w v h8 hv, hx, ?_⟩
+  rw [brev_eq w _ h8 hx, leDec_beEnc_invol]
+  rw [← two_pow_eq_256_pow w h8]; exact hv
+
+/-! ### plain registers -/
+
+theorem isGroup_false (r : Reg) (hp : r.subW = 0) : r.isGroup = false := by
+  simp [Reg.isGroup, hp]
+
+theorem isGroup_true (r : Reg) (hp : 0 < r.subW) : r.isGroup = true := by
+  simp [Reg.isGroup]; omega
+
+theorem get_plain (r : Reg) (raw : Bool) (hp : r.subW = 0) (hn : r.reverse = false) :
+    r.get raw = .ok r.value := by
+  simp [Reg.get, isGroup_false r hp, hn]
+
+theorem set_plain (r : Reg) (v : Nat) (raw : Bool) (hp : r.subW = 0) (hn : r.reverse = false)
+    (hv : v < 2 ^ r.width) : r.set v raw = .ok { r with value := v } := by
+  have : ¬ (v ≥ 2 ^ r.width) := by omega
+  simp [Reg.set, isGroup_false r hp, hn, this]
+
+theorem set_reject (r : Reg) (v : Nat) (raw : Bool) (hv : 2 ^ r.width ≤ v) : r.set v raw = .error .spsdk := by
+  simp [Reg.set, hv]
+
+theorem set_plain_inv (r r' : Reg) (v : Nat) (raw : Bool) (hp : r.subW = 0) (hn : r.reverse = false)
+    (hs : r.set v raw = .ok r') : v < 2 ^ r.width ∧ r' = { r with value := v } := by
+  by_cases hv : v < 2 ^ r.width
+  · rw [set_plain r v raw hp hn hv] at hs
+    exact ⟨hv, by cases hs; rfl⟩
+  · rw [set_reject r v raw (by omega)] at hs
+    cases hs
+
+theorem fieldGet_plain (r : Reg) (f : Field) (hp : r.subW = 0) (hn : r.reverse = false) :
+    fieldGet r f = .ok (((r.value >>> f.offset) &&& mask f.width) <<< f.shift) := by
+  simp [fieldGet, get_plain r false hp hn]
+
+theorem fieldGet_plain_upd (r : Reg) (f : Field) (x : Nat) (hp : r.subW = 0) (hn : r.reverse = false) :
+    fieldGet { r with value := x } f = .ok (((x >>> f.offset) &&& mask f.width) <<< f.shift) :=
+  fieldGet_plain { r with value := x } f hp hn
+
+theorem fieldSet_reject (r : Reg) (f : Field) (v : Nat) (raw : Bool) (hv : 2 ^ f.width ≤ v >>> f.shift) :
+    fieldSet r f v raw false = .error .spsdk := by
+  simp [fieldSet, hv]
+
+theorem fieldSet_plain (r : Reg) (f : Field) (v : Nat) (raw : Bool) (hp : r.subW = 0) (hn : r.reverse = false)
+    (hv : v >>> f.shift < 2 ^ f.width) :
+    fieldSet r f v raw false = r.set (insertBits r.value f.offset f.width (v >>> f.shift)) raw := by
+  have : ¬ (v >>> f.shift ≥ 2 ^ f.width) := by omega
+  simp [fieldSet, get_plain r raw hp hn, this]
+
+theorem fieldSet_plain_ok (r : Reg) (f : Field) (v : Nat) (raw : Bool) (hp : r.subW = 0) (hn : r.reverse = false)
+    (hb : r.value < 2 ^ r.width) (hin : f.offset + f.width ≤ r.width) (hv : v >>> f.shift < 2 ^ f.width) :
+    fieldSet r f v raw false =
+      .ok { r with value := insertBits r.value f.offset f.width (v >>> f.shift) } := by
+  rw [fieldSet_plain r f v raw hp hn hv, set_plain r _ raw hp hn]
+  exact insertBits_lt _ _ _ _ _ hb hin
+
+theorem fieldSet_plain_inv (r r' : Reg) (f : Field) (v : Nat) (raw : Bool) (hp : r.subW = 0)
+    (hn : r.reverse = false) (hs : fieldSet r f v raw false = .ok r') :
+    v >>> f.shift < 2 ^ f.width ∧
+      insertBits r.value f.offset f.width (v >>> f.shift) < 2 ^ r.width ∧
+      r' = { r with value := insertBits r.value f.offset f.width (v >>> f.shift) } := by
+  by_cases hv : v >>> f.shift < 2 ^ f.width
+  · rw [fieldSet_plain r f v raw hp hn hv] at hs
+    exact ⟨hv, set_plain_inv r r' _ raw hp hn hs⟩
+  · rw [fieldSet_reject r f v raw (by omega)] at hs
+    cases hs
+
+/-- a field slice only depends on the bits of the field -/
+theorem slice_congr (a b off w : Nat) (h : ∀ k, off ≤ k → k < off + w → a.testBit k = b.testBit k) :
+    (a >>> off) &&& mask w = (b >>> off) &&& mask w := by
+  apply Nat.eq_of_testBit_eq; intro k
+  simp only [Nat.testBit_and, Nat.testBit_shiftRight, testBit_mask]
+  by_cases hk : k < w
+  · rw [h (off + k) (by omega) (by omega)]
+  · simp [hk]
+
+theorem slice_insertBits_same (rv off w v : Nat) (hv : v < 2 ^ w) :
+    (insertBits rv off w v >>> off) &&& mask w = v := by
+  apply Nat.eq_of_testBit_eq; intro k
+  simp only [Nat.testBit_and, Nat.testBit_shiftRight, testBit_mask, testBit_insertBits]
+  by_cases hk : k < w
+  · have : off ≤ off + k ∧ off + k < off + w := by omega
+    simp [hk]
+  · simp [hk]
+    exact testBit_eq_false_of_lt hv (by omega)
+
+theorem slice_insertBits_disjoint (rv off w v off' w' : Nat)
+    (hd : off + w ≤ off' ∨ off' + w' ≤ off) :
+    (insertBits rv off w v >>> off') &&& mask w' = (rv >>> off') &&& mask w' := by
+  apply slice_congr
+  intro k h1 h2
+  rw [testBit_insertBits]
+  have : ¬ (off ≤ k ∧ k < off + w) := by omega
+  rw [if_neg this]
+
+/-! ### register-file operations: what a successful step does to each register -/
+
+theorem updAt_inv (rf rf' : RegFile) (i : Nat) (g : Reg → PyRes Reg) (h : updAt rf i g = .ok rf') :
+    ∃ r r', rf[i]? = some r ∧ g r = .ok r' ∧ rf' = rf.set i r' := by
+  unfold updAt at h
+  split at h
+  · cases h
+  · rename_i r hr
+    split at h
+    · cases h
+    · rename_i r' hg
+      cases h
+      exact ⟨r, r', hr, hg, rfl⟩
+
+theorem updAt_getElem?_ne (rf rf' : RegFile) (i k : Nat) (g : Reg → PyRes Reg) (h : updAt rf i g = .ok rf')
+    (hk : i ≠ k) : rf'[k]? = rf[k]? := by
+  obtain ⟨r, r', _, _, rfl⟩ := updAt_inv rf rf' i g h
+  simp [List.getElem?_set, hk]
+
+theorem updAt_getElem?_eq (rf rf' : RegFile) (i : Nat) (g : Reg → PyRes Reg) (h : updAt rf i g = .ok rf') :
+    ∃ r r', rf[i]? = some r ∧ g r = .ok r' ∧ rf'[i]? = some r' := by
+  obtain ⟨r, r', hr, hg, rfl⟩ := updAt_inv rf rf' i g h
+  refine ⟨r, r', hr, hg, ?_⟩
+  have : i < rf.length := by
+    rcases Nat.lt_or_ge i rf.length with h | h
+    · exact h
+    · rw [List.getElem?_eq_none h] at hr; cases hr
+  simp [List.getElem?_set, this]
+
+/-- pointwise relation between two lists of the same length (core has no `List.Forall₂`) -/
+inductive Forall2 {α : Type} (R : α → α → Prop) : List α → List α → Prop
+  | nil : Forall2 R [] []
+  | cons {a b : α} {as bs : List α} : R a b → Forall2 R as bs → Forall2 R (a :: as) (b :: bs)
+
+/-- one register before/after a successful register-file operation -/
+inductive RegStep (r r' : Reg) : Prop
+  | same : r' = r → RegStep r r'
+  | set (v : Nat) (raw : Bool) : r.set v raw = .ok r' → RegStep r r'
+  | field (f : Field) (v : Nat) (raw : Bool) : f ∈ r.fields → fieldSet r f v raw false = .ok r' → RegStep r r'
+
+theorem forall2_refl_same : ∀ (rf : RegFile), Forall2 RegStep rf rf
+  | [] => .nil
+  | _ :: rs => .cons (.same rfl) (forall2_refl_same rs)
+
+theorem forall2_set (rf : RegFile) (i : Nat) (r r' : Reg) (hr : rf[i]? = some r) (hs : RegStep r r') :
+    Forall2 RegStep rf (rf.set i r') := by
+  induction rf generalizing i with
+  | nil => simp at hr
+  | cons a as ih =>
+    cases i with
+    | zero =>
+      simp at hr; subst hr
+      exact .cons hs (forall2_refl_same as)
+    | succ i =>
+      simp at hr
+      exact .cons (.same rfl) (ih i hr)
+
+theorem updAt_forall2 (rf rf' : RegFile) (i : Nat) (g : Reg → PyRes Reg) (h : updAt rf i g = .ok rf')
+    (hg : ∀ r r', g r = .ok r' → RegStep r r') : Forall2 RegStep rf rf' := by
+  obtain ⟨r, r', hr, hgr, rfl⟩ := updAt_inv rf rf' i g h
+  exact forall2_set rf i r r' hr (hg r r' hgr)
+
+theorem resetAll_forall2 (rf rf' : RegFile) (h : resetAllRegs rf = .ok rf') : Forall2 RegStep rf rf' := by
+  induction rf generalizing rf' with
+  | nil => simp [resetAllRegs] at h; subst h; exact .nil
+  | cons r rs ih =>
+    unfold resetAllRegs at h
+    split at h
+    · cases h
+    · rename_i r' hr
+      split at h
+      · cases h
+      · rename_i rs' hrs
+        cases h
+        exact .cons (.set _ true hr) (ih rs' hrs)
+
+theorem parseAll_forall2 (rf rf' : RegFile) (off : Nat) (b : Bytes) (little : Bool)
+    (h : parseAll rf off b little = .ok rf') : Forall2 RegStep rf rf' := by
+  induction rf generalizing rf' off with
+  | nil => simp [parseAll] at h; subst h; exact .nil
+  | cons r rs ih =>
+    unfold parseAll at h
+    split at h
+    · cases h; exact forall2_refl_same _
+    · simp only [] at h
+      split at h
+      · cases h
+      · rename_i r' hr
+        split at h
+        · cases h
+        · rename_i rs' hrs
+          cases h
+          exact .cons (.set _ true hr) (ih rs' _ hrs)
+
+theorem step_forall2 (rf rf' : RegFile) (op : Op) (h : step rf op = .ok rf') : Forall2 RegStep rf rf' := by
+  cases op with
+  | setReg i v raw => exact updAt_forall2 rf rf' i _ h (fun r r' hg => .set v raw hg)
+  | setField i j v raw =>
+    refine updAt_forall2 rf rf' i _ h (fun r r' hg => ?_)
+    split at hg
+    · cases hg
+    · rename_i f hf
+      exact .field f v raw (List.mem_of_getElem? hf) hg
+  | setEnum i j k =>
+    refine updAt_forall2 rf rf' i _ h (fun r r' hg => ?_)
+    split at hg
+    · cases hg
+    · rename_i f hf
+      split at hg
+      · cases hg
+      · exact .field f _ false (List.mem_of_getElem? hf) hg
+  | resetReg i => exact updAt_forall2 rf rf' i _ h (fun r r' hg => .set _ true hg)
+  | resetAll => exact resetAll_forall2 rf rf' h
+  | parse b little => exact parseAll_forall2 rf rf' 0 b little h
+
+/-- a relation that preserves an invariant and a key, lifted to lists -/
+theorem forall2_preserve {α β : Type} {R : α → α → Prop} {P : α → Prop} {key : α → β} {l l' : List α}
+    (h : Forall2 R l l') (hP : ∀ a ∈ l, P a)
+    (hR : ∀ a a', P a → R a a' → P a' ∧ key a' = key a) :
+    (∀ a ∈ l', P a) ∧ l'.map key = l.map key := by
+  induction h with
+  | nil => simp
+  | @cons a a' as as' hab _ ih =>
+    have h1 := hR a a' (hP a (by simp)) hab
+    have h2 := ih (fun x hx => hP x (by simp [hx]))
+    refine ⟨?_, ?_⟩
+    · intro x hx
+      simp at hx
+      rcases hx with rfl | hx
+      · exact h1.1
+      · exact h2.1 x hx
+    · simp [h1.2, h2.2]
+
+theorem getElem?_of_map_eq {α β : Type} {key : α → β} {l l' : List α} (h : l'.map key = l.map key)
+    {i : Nat} {a : α} (ha : l[i]? = some a) : ∃ a', l'[i]? = some a' ∧ key a' = key a := by
+  have := congrArg (fun x => x[i]?) h
+  simp only [List.getElem?_map, ha, Option.map_some] at this
+  cases h' : l'[i]? with
+  | none => simp [h'] at this
+  | some a' =>
+    simp [h'] at this
+    exact ⟨a', rfl, this⟩
+
+/-- a step of a plain, non-reversed register only changes the value, and keeps it in range -/
+theorem regStep_plain (r r' : Reg) (hs : RegStep r r') (hp : r.subW = 0) (hn : r.reverse = false)
+    (hb : r.value < 2 ^ r.width) : ∃ x, x < 2 ^ r.width ∧ r' = { r with value := x } := by
+  cases hs with
+  | same h => exact ⟨r.value, hb, h⟩
+  | set v raw h => exact ⟨v, set_plain_inv r r' v raw hp hn h⟩
+  | field f v raw _ h => exact ⟨_, (fieldSet_plain_inv r r' f v raw hp hn h).2⟩
+
+theorem step_setField_inv (s s' : RegFile) (i j v : Nat) (raw : Bool)
+    (h : step s (.setField i j v raw) = .ok s') :
+    ∃ r g r', s[i]? = some r ∧ r.fields[j]? = some g ∧ fieldSet r g v raw false = .ok r' ∧
+      s'[i]? = some r' ∧ ∀ k, i ≠ k → s'[k]? = s[k]? := by
+  simp only [step] at h
+  obtain ⟨r, r', hr, hg, hr'⟩ := updAt_getElem?_eq s s' i _ h
+  split at hg
+  · cases hg
+  · rename_i g hgj
+    exact ⟨r, g, r', hr, hgj, hg, hr', fun k hk => updAt_getElem?_ne s s' i k _ h hk⟩
+
+theorem step_setEnum_inv (s s' : RegFile) (i j e : Nat)
+    (h : step s (.setEnum i j e) = .ok s') :
+    ∃ r g ev r', s[i]? = some r ∧ r.fields[j]? = some g ∧ g.enums[e]? = some ev ∧
+      fieldSet r g ev false false = .ok r' ∧
+      s'[i]? = some r' ∧ ∀ k, i ≠ k → s'[k]? = s[k]? := by
+  simp only [step] at h
+  obtain ⟨r, r', hr, hg, hr'⟩ := updAt_getElem?_eq s s' i _ h
+  split at hg
+  · cases hg
+  · rename_i g hgj
+    split at hg
+    · cases hg
+    · rename_i ev hev
+      exact ⟨r, g, ev, r', hr, hgj, hev, hg, hr', fun k hk => updAt_getElem?_ne s s' i k _ h hk⟩
+
+/-! ### grouped registers -/
+
+theorem testBit_foldl_or (l : List Nat) (g : Nat → Nat) (acc k : Nat) :
+    (l.foldl (fun acc i => acc ||| g i) acc).testBit k = (acc.testBit k || l.any (fun i => (g i).testBit k)) := by
+  induction l generalizing acc with
+  | nil => simp
+  | cons a l ih => simp [ih, Nat.testBit_or, Bool.or_assoc]
+
+theorem testBit_assemble (r : Reg) (k : Nat) :
+    (assemble r).testBit k = true ↔
+      ∃ i, i < r.subs.length ∧ subPos r i ≤ k ∧ (r.subs.getD i 0).testBit (k - subPos r i) = true := by
+  unfold assemble
+  rw [testBit_foldl_or]
+  simp [List.any_eq_true, Nat.testBit_shiftLeft]
+
+/-- the sub-register list written by `Reg.set` on a group -/
+def distribute (r : Reg) (v : Nat) : List Nat :=
+  (List.range r.subs.length).map (fun i =>
+    if i < r.width / r.subW then (v >>> subPos r i) &&& mask r.subW else r.subs.getD i 0)
+
+theorem set_group (r : Reg) (v : Nat) (hg : 0 < r.subW) (hv : v < 2 ^ r.width) :
+    r.set v true = .ok { r with subs := distribute r v } := by
+  have : ¬ (v ≥ 2 ^ r.width) := by omega
+  simp [Reg.set, isGroup_true r hg, this, distribute]
+
+theorem set_group_rev (r : Reg) (v x : Nat) (raw : Bool) (hg : 0 < r.subW) (hv : v < 2 ^ r.width)
+    (hc : (!raw && r.reverse) = true) (hx : brev r.width v = some x) :
+    r.set v raw = .ok { r with subs := distribute r x } := by
+  have : ¬ (v ≥ 2 ^ r.width) := by omega
+  simp [Reg.set, isGroup_true r hg, this, distribute, hc, hx]
+
+theorem set_group_norev (r : Reg) (v : Nat) (raw : Bool) (hg : 0 < r.subW) (hv : v < 2 ^ r.width)
+    (hc : (!raw && r.reverse) = false) :
+    r.set v raw = .ok { r with subs := distribute r v } := by
+  have : ¬ (v ≥ 2 ^ r.width) := by omega
+  simp [Reg.set, isGroup_true r hg, this, distribute, hc]
+
+theorem distribute_length (r : Reg) (v : Nat) : (distribute r v).length = r.subs.length := by
+  simp [distribute]
+
+theorem distribute_getElem? (r : Reg) (v i : Nat) (hw : r.width = r.subW * r.subs.length) (hg : 0 < r.subW)
+    (hi : i < r.subs.length) :
+    (distribute r v)[i]? = some ((v >>> subPos r i) &&& mask r.subW) := by
+  have hn : r.width / r.subW = r.subs.length := by rw [hw, Nat.mul_div_cancel_left _ hg]
+  simp [distribute, hi, hn]
+
+theorem subPos_upd (r : Reg) (l : List Nat) (i : Nat) : subPos { r with subs := l } i = subPos r i := rfl
+
+/-- the sub-register slots tile `[0, width)` -/
+theorem subPos_cover (r : Reg) (k : Nat) (hw : r.width = r.subW * r.subs.length) (hg : 0 < r.subW)
+    (hk : k < r.width) : ∃ i, i < r.subs.length ∧ subPos r i ≤ k ∧ k - subPos r i < r.subW := by
+  have hq : k / r.subW < r.subs.length := by
+    apply Nat.div_lt_of_lt_mul; rw [← hw]; exact hk
+  have h1 : k / r.subW * r.subW ≤ k := Nat.div_mul_le_self k r.subW
+  have h2 : k - k / r.subW * r.subW < r.subW := by
+    have := Nat.mod_lt k hg
+    have e := Nat.div_add_mod k r.subW
+    rw [Nat.mul_comm] at e
+    omega
+  generalize k / r.subW = q at hq h1 h2
+  by_cases hr : r.revSubs = true
+  · refine ⟨r.subs.length - 1 - q, by omega, ?_⟩
+    have e : subPos r (r.subs.length - 1 - q) = q * r.subW := by
+      simp only [subPos, hr, if_true]
+      have e1 : r.subs.length - 1 - q + 1 = r.subs.length - q := by omega
+      rw [e1, hw, Nat.sub_mul, Nat.mul_comm r.subW]
+      have : q * r.subW ≤ r.subs.length * r.subW := Nat.mul_le_mul_right _ (by omega)
+      omega
+    rw [e]; exact ⟨h1, h2⟩
+  · refine ⟨q, hq, ?_⟩
+    have e : subPos r (q) = q * r.subW := by
+      simp [subPos, hr]
+    rw [e]; exact ⟨h1, h2⟩
+
+theorem assemble_distribute (r : Reg) (v : Nat) (hw : r.width = r.subW * r.subs.length) (hg : 0 < r.subW)
+    (hv : v < 2 ^ r.width) : assemble { r with subs := distribute r v } = v := by
+  apply Nat.eq_of_testBit_eq; intro k
+  rw [Bool.eq_iff_iff, testBit_assemble]
+  simp only [distribute_length, subPos_upd]
+  constructor
+  · rintro ⟨i, hi, hp, hb⟩
+    rw [List.getD_eq_getElem?_getD, distribute_getElem? r v i hw hg hi] at hb
+    simp only [Option.getD_some, Nat.testBit_and, Nat.testBit_shiftRight, Bool.and_eq_true] at hb
+    have : subPos r i + (k - subPos r i) = k := by omega
+    rw [this] at hb
+    exact hb.1
+  · intro hb
+    have hk : k < r.width := by
+      rcases Nat.lt_or_ge k r.width with h | h
+      · exact h
+      · rw [testBit_eq_false_of_lt hv h] at hb; cases hb
+    obtain ⟨i, hi, hp, hlt⟩ := subPos_cover r k hw hg hk
+    refine ⟨i, hi, hp, ?_⟩
+    rw [List.getD_eq_getElem?_getD, distribute_getElem? r v i hw hg hi]
+    simp only [Option.getD_some, Nat.testBit_and, Nat.testBit_shiftRight, Bool.and_eq_true, testBit_mask]
+    have : subPos r i + (k - subPos r i) = k := by omega
+    rw [this]
+    exact ⟨hb, by simpa using hlt⟩
+
+theorem distribute_bound (r : Reg) (v : Nat) (hw : r.width = r.subW * r.subs.length) (hg : 0 < r.subW) :
+    ∀ s ∈ distribute r v, s < 2 ^ r.subW := by
+  intro s hs
+  obtain ⟨i, hsi⟩ := List.getElem?_of_mem hs
+  have hi' : i < r.subs.length := by
+    rcases Nat.lt_or_ge i r.subs.length with h | h
+    · exact h
+    · rw [List.getElem?_eq_none (by rw [distribute_length]; exact h)] at hsi; cases hsi
+  rw [distribute_getElem? r v i hw hg hi'] at hsi
+  cases hsi
+  apply Nat.and_lt_two_pow
+  simp only [mask]
+  have : 0 < 2 ^ r.subW := Nat.two_pow_pos _
+  omega
+
+/-! ### export / parse -/
+
+/-- the bytes of one register in `exportRegs` -/
+def encReg (little : Bool) (r : Reg) (v : Nat) : Bytes :=
+  if little then leEnc (r.width / 8) v else beEnc (r.width / 8) v
+
+/-- the folding function of `exportRegs` -/
+def expF (little : Bool) (acc : PyRes Bytes) (r : Reg) : PyRes Bytes :=
+  match acc, r.get true with
+  | .error e, _ => .error e
+  | _, .error e => .error e
+  | .ok b, .ok v =>
+    if v ≥ 256 ^ (r.width / 8) ∧ v ≠ 0 then .error .spsdk
+    else .ok (b ++ (if little then leEnc (r.width / 8) v else beEnc (r.width / 8) v))
+
+theorem exportRegs_eq (rf : RegFile) (little : Bool) : exportRegs rf little = rf.foldl (expF little) (.ok []) := rfl
+
+theorem foldl_expF_error (rs : RegFile) (little : Bool) (e : PyErr) :
+    rs.foldl (expF little) (.error e) = .error e := by
+  induction rs with
+  | nil => rfl
+  | cons r rs ih => simp only [List.foldl_cons]; rw [show expF little (.error e) r = .error e from rfl, ih]
+
+theorem expF_ok (little : Bool) (a : Bytes) (r : Reg) :
+    expF little (.ok a) r = (expF little (.ok []) r).map (a ++ ·) := by
+  unfold expF
+  cases r.get true with
+  | error e => rfl
+  | ok v =>
+    simp only []
+    split <;> simp [Except.map]
+
+theorem foldl_expF_ok (rs : RegFile) (little : Bool) (a : Bytes) :
+    rs.foldl (expF little) (.ok a) = (rs.foldl (expF little) (.ok [])).map (a ++ ·) := by
+  induction rs generalizing a with
+  | nil => simp [Except.map]
+  | cons r rs ih =>
+    simp only [List.foldl_cons]
+    rw [expF_ok little a r]
+    cases h : expF little (.ok []) r with
+    | error e => simp [Except.map, foldl_expF_error]
+    | ok c =>
+      simp only [Except.map]
+      rw [ih (a ++ c), ih c]
+      cases rs.foldl (expF little) (.ok []) with
+      | error e => rfl
+      | ok d => simp [Except.map, List.append_assoc]
+
+theorem exportRegs_cons_inv (r : Reg) (rs : RegFile) (little : Bool) (b : Bytes)
+    (h : exportRegs (r :: rs) little = .ok b) :
+    ∃ v b', r.get true = .ok v ∧ (v < 256 ^ (r.width / 8) ∨ v = 0) ∧ exportRegs rs little = .ok b' ∧
+      b = encReg little r v ++ b' := by
+  rw [exportRegs_eq, List.foldl_cons] at h
+  cases hg : r.get true with
+  | error e =>
+    have : expF little (.ok []) r = .error e := by simp [expF, hg]
+    rw [this, foldl_expF_error] at h; cases h
+  | ok v =>
+    by_cases hc : v ≥ 256 ^ (r.width / 8) ∧ v ≠ 0
+    · have : expF little (.ok []) r = .error .spsdk := by simp [expF, hg, hc]
+      rw [this, foldl_expF_error] at h; cases h
+    · have : expF little (.ok []) r = .ok (encReg little r v) := by
+        simp only [expF, hg, hc, if_false, encReg, List.nil_append]
+      rw [this, foldl_expF_ok] at h
+      cases hr : rs.foldl (expF little) (.ok []) with
+      | error e => rw [hr] at h; cases h
+      | ok b' =>
+        rw [hr] at h
+        simp only [Except.map] at h
+        cases h
+        exact ⟨v, b', rfl, by omega, hr, rfl⟩
+
+theorem encReg_length (little : Bool) (r : Reg) (v : Nat) : (encReg little r v).length = r.width / 8 := by
+  unfold encReg; split <;> simp [leEnc_length, beEnc_length]
+
+theorem dec_encReg (little : Bool) (r : Reg) (v : Nat) (hv : v < 256 ^ (r.width / 8) ∨ v = 0) :
+    (if little then leDec (encReg little r v) else beDec (encReg little r v)) = v := by
+  have hm : v % 256 ^ (r.width / 8) = v := by
+    rcases hv with h | h
+    · exact Nat.mod_eq_of_lt h
+    · subst h; simp
+  cases little <;> simp [encReg, leDec, leEnc, beDec_beEnc_mod, hm]
+
+theorem exportRegs_length (rf : RegFile) (little : Bool) (b : Bytes) (he : exportRegs rf little = .ok b) :
+    b.length = (rf.map (fun r => r.width / 8)).sum := by
+  induction rf generalizing b with
+  | nil => simp [exportRegs] at he; subst he; rfl
+  | cons r rs ih =>
+    obtain ⟨v, b', _, _, hrs, rfl⟩ := exportRegs_cons_inv r rs little b he
+    simp [encReg_length, ih b' hrs]
+
+theorem zeroed_eq (r r' : Reg) (h : { r' with value := 0 } = { r with value := 0 }) :
+    { r' with value := r.value } = r ∧ r'.width = r.width ∧ r'.subW = r.subW ∧ r'.reverse = r.reverse := by
+  cases r; cases r'
+  simp only [Reg.mk.injEq] at h ⊢
+  simp [h]
+
+theorem parseAll_export (rf rf' : RegFile) (little : Bool) (pre mid suf : Bytes)
+    (hp : ∀ r ∈ rf, r.subW = 0 ∧ r.reverse = false ∧ r.value < 2 ^ r.width)
+    (hl : rf'.map (fun r => { r with value := 0 }) = rf.map (fun r => { r with value := 0 }))
+    (he : exportRegs rf little = .ok mid) :
+    parseAll rf' pre.length (pre ++ mid ++ suf) little = .ok rf := by
+  induction rf generalizing rf' pre mid with
+  | nil =>
+    cases rf' with
+    | nil => rfl
+    | cons a as => simp at hl
+  | cons r rs ih =>
+    cases rf' with
+    | nil => simp at hl
+    | cons r' rs' =>
+      simp only [List.map_cons, List.cons.injEq] at hl
+      obtain ⟨hz, hw, hsw, hrv⟩ := zeroed_eq r r' hl.1
+      obtain ⟨hp1, hp2, hp3⟩ := hp r (by simp)
+      obtain ⟨v, b', hg, hv, hrs, rfl⟩ := exportRegs_cons_inv r rs little mid he
+      rw [get_plain r true hp1 hp2] at hg
+      cases hg
+      have hset : r'.set r.value true = .ok r := by
+        rw [set_plain r' r.value true (hsw.trans hp1) (hrv.trans hp2) (hw ▸ hp3), hz]
+      have hrec := ih rs' (pre ++ encReg little r r.value) b' (fun x hx => hp x (by simp [hx])) hl.2 hrs
+      simp only [List.length_append, encReg_length, List.append_assoc] at hrec
+      unfold parseAll
+      have hlen : ¬ ((pre ++ (encReg little r r.value ++ b') ++ suf).length < pre.length + r'.width / 8) := by
+        simp only [List.length_append, encReg_length, hw]; omega
+      rw [if_neg hlen]
+      simp only [hw, List.append_assoc]
+      have hchunk : ((pre ++ (encReg little r r.value ++ (b' ++ suf))).drop pre.length).take (r.width / 8)
+          = encReg little r r.value := by
+        rw [List.drop_left]
+        conv => lhs; rw [← encReg_length little r r.value]
+        rw [List.take_left]
+      rw [hchunk, dec_encReg little r r.value hv, hset]
+      simp only []
+      rw [hrec]
 
 end SpsdkVerif.Regs
